@@ -70,6 +70,8 @@ PLAN = {
             seq("slice", "borrowed", "from a borrowed slice (2 ctors)", "3 elements; all 16 two-step sequences"),
             seq("slice", "owned", "from an owned Vec (capacity == len, len + 1)", "3 elements; all 16 two-step sequences"),
             seq("slice", "shared", "from an Arc<[T]> (2 ctors)", "3 elements; all 16 two-step sequences"),
+            seq("slice", "owned", "from an EMPTY owned Vec that still owns a buffer (len 0, capacity 1)", "0 elements; all 16 two-step sequences", "quick", "_empty", 900),
+            H("c14_str_alias_eq", "two Cow<str> borrowed from one buffer with lengths la, lb <= 3: ==, cmp == Equal, partial_cmp follow the content (equal iff la == lb), not the start address", kind="bounded", bound="prefixes of \"abc\", both borrowed constructors", covers=2),
             # ---- thorough
             seq("str", "borrowed", "from a borrow", "content in {'', 'a'}; all 16 two-step sequences", "thorough", "_all", 900),
             seq("str", "owned", "from an owned String", "content in {'', 'a'}; all 16 two-step sequences", "thorough", "_all", 900),
